@@ -21,7 +21,7 @@ RULE = ("Hypothesis-generated trees (release incl. '%', '=', ':' and Unicode in 
         "second dump, and the file read by stdlib RawConfigParser must equal the reference INI model section by section. "
         "Discinfo: any finite non-zero float timestamp, single-line description, 'ALL' or disc lists. Non-trivial (tree) = "
         "child variant, >= 2 top-level variants, images+checksums, layered or src tree; (discinfo) timestamp needing > 12 "
-        "significant digits or exponent notation, or a disc list; distinct = SHA-1 of the description.")
+        "significant digits or exponent notation, or a disc list; distinct = SHA-1 of the description. The written tree is then changed in place (other arch, later timestamp, one top-level variant replaced by one sorting first) and written again; re-read snapshot and file are compared with the changed description. Integer timestamps of any magnitude and sign; variant objects created for another tree.")
 ASSUMPTIONS = ["stdlib configparser.RawConfigParser is a correct, independent INI reader",
                "top-level variants whose UID differs from their id are stored under the UID (KF-C04-toplevel-key-id covers the other case)"]
 FLOORS = {"tree": 300, "tree:child-type:variant": 20, "tree:child-type:optional": 20, "tree:child-type:addon": 20, "tree:depth3": 20,
